@@ -442,7 +442,7 @@ def planD (E : ReEnv) (cfg : Cfg) (sr : SReq) : Plan :=
     match routeTagged E cfg.routing sr.req with
     | (.panic w, _) => .early w.toList
     | (.error code allow, tag) =>
-      .chain (label .cfilter cfg.cfilters) ⟨.errorWriter, errorScript code allow (errorMessage E cfg.routing sr.req tag)⟩ {} false
+      .chain (label .cfilter cfg.cfilters) ⟨.errorWriter, errorScript code allow (errMsg E cfg sr code tag)⟩ {} false
     | (.selected svc rid ps, _) =>
       .chain (allFilters cfg svc rid) ⟨.handler rid, (routeX cfg rid).script⟩
         { params := ps, selPath :=
